@@ -126,6 +126,8 @@ def matchbool(c: Cursor) -> bool | None:
 def match_uint(s: str, pos: int) -> int:
     """Matches an integer with optional sign and internal underscores."""
     p = pos
+    if p >= len(s) or not s[p].isdecimal():
+        return -1  # NOTE: a number starts with a digit ('_5' is not one)
     while p < len(s):
         c = s[p]
         if c.isdecimal():
